@@ -12,22 +12,22 @@ TECH = "deterministic simulation with fault injection (seeded search over %s; ex
 
 CLAIMED = {
     "C04": ("fault_enumeration", "4/C04", "handler outcomes and crash points of scripted handler/listener actors",
-            "Seeded runs of real ConsoleApplication.run with scripted handler and listener actors; the raise is injected at every step of each generated handler script (crash-point sweep). Held on N runs = evidence, not proof.",
+            "Seeded runs of real ConsoleApplication.run with scripted handler and listener actors on simulated streams (or clikit's own StreamOutputStream over simulated text files of several encodings); the raise is injected at every step of each generated handler script (crash-point sweep), also out of the handler's own formatted write and after output that leaves a style open; earlier failing runs in the same process; a scenario that never returns is cut by a wall alarm and reported as a hang. Held on N runs = evidence, not proof.",
             "Trusts the actor scripts, the status reference model and the simulated streams; SystemExit/GeneratorExit are outside the statement."),
     "C05": ("exploration", "4/C05", "parse histories with failing parses as faults",
             "One long-lived parser driven through seeded histories of good and failing parses, each compared with a freshly constructed parser and with input snapshots.",
             "Trusts a fresh DefaultArgsParser as the reference; formats and token lines come from the harness generator."),
     "C06": ("exploration", "4/C06", "builder histories with rejected additions as faults",
-            "Seeded builder histories over a colliding name pool stacked on 0-2 base levels, checked step by step against a reference format model, with snapshot comparison after every rejection.",
+            "Seeded builder histories over a colliding name pool stacked on 0-2 base levels, checked step by step against a reference format model, with snapshot comparison after every rejection; the same elements through the element-list constructor, one long-lived CommandConfig (rejected declarations included) and a command tree without application; base formats and a sibling builder must be unchanged by the stacking.",
             "Trusts the reference model written from the statement."),
     "C09": ("exploration", "4/C09", "switch placements x handler faults x stream tty-ness",
             "Seeded runs of a default-config application with a scripted handler; switches are inserted at seeded positions; oracle is a switch-effect model evaluated at the simulated streams.",
             "Placement space is sampled, not enumerated; precedence of contradictory switches is not asserted."),
     "C11": ("exploration", "4/C11", "write histories on twin ANSI/plain outputs with exceptional scope exits and stream write faults",
-            "Same seeded operation history applied to an ANSI and a plain twin; oracles: twin equality, ECMA-48 SGR table, indentation stack model, newline rule; scopes are left by exceptions including injected stream write errors.",
+            "Same seeded operation history applied to an ANSI and a plain twin (IO, Output, section output, BufferedIO fetch/clear cycles); oracles: twin equality, ECMA-48 SGR table (styles built three ways, edited in place between uses, a decoy style set in the same process), indentation stack model, newline rule; scopes are left by exceptions including injected stream write errors and a closed stream.",
             "Messages come from a balanced-markup grammar; raw methods and section outputs are compared under the restrictions stated in DESIGN 4/C11."),
     "C12": ("exploration", "4/C12", "register/dispatch histories with raising and re-entrant listeners",
-            "Seeded histories against an ordered-multiset reference model; listeners raise, register others or dispatch re-entrantly during a dispatch.",
+            "Seeded histories against an ordered-multiset reference model; listeners raise, register others or dispatch re-entrantly during a dispatch; an application-level class registers listeners through the configuration and dispatches by real runs (listeners stop, take the command over or resolve another command).",
             "Trusts the reference model; behaviour of a listener registered during a dispatch within that same dispatch is left open."),
     "C15": ("exploration", "4/C15", "section operation histories interpreted by a terminal emulator",
             "Seeded histories of create/write/overwrite/clear over 1-3 sections; after every operation the emulator's screen must equal the stacked section contents.",
@@ -39,13 +39,13 @@ CLAIMED = {
             "A reused application/style/component is compared run by run with a reference built in a child forked from a pristine zygote process.",
             "Trusts fork isolation; traceback text is compared after scrubbing addresses only."),
     "C18": ("fault_enumeration", "4/C18", "answer scripts with end-of-input injected after every prefix",
-            "Seeded dialogues against a dialogue reference model; every script is also run with EOF after each prefix, a torn last line and an over-long line; non-termination is decided by a read budget.",
+            "Seeded dialogues against a dialogue reference model, read through a simulated input stream or clikit's own StreamInputStream/StringInputStream; every script is also run with EOF after each prefix, a torn last line and an over-long line; a second ask on a fresh I/O (optionally over the same source), a closed standard output; non-termination is decided by a read budget.",
             "stty is stubbed as unreachable (line-reading path); trusts the dialogue model."),
     "C19": ("exploration", "4/C19", "thread schedules (seeded scheduler owning both threads), write latency, raising bodies",
             "Real spinner and caller threads are parked and released one at a time by a seeded scheduler at every write/sleep/event/thread operation (optionally every source line) under a virtual clock; screen oracle after every write; liveness by step caps.",
             "Pre-emption granularity is seams plus source lines of progress_indicator.py, not bytecodes."),
     "C20": ("fault_enumeration", "4/C20", "source-store faults (missing, unreadable, truncated, replaced, exec'd) x exceptions x verbosity",
-            "Generated modules served from an in-memory source store; each workload is rendered under each source-fault kind; oracle: render total, class name and message present, snippet grammar in the fault-free class.",
+            "Generated modules served from an in-memory source store; each workload is rendered under each source-fault kind; oracle: render total, class name and message present, snippet grammar in the fault-free class; earlier renderings and earlier output on the same I/O (styles left open), a second rendering with another ignore pattern, verbosity or UTF-8 answer, clikit's BufferedIO and StreamOutputStream over files of several encodings.",
             "Trusts the source store seam (crashtest.frame.open + loader + linecache)."),
 }
 
